@@ -615,19 +615,15 @@ class FuncVerifier:
                 return cand
         if self.module and name in self.module.imports and self.module.imports[name] in self.E.sc.globals:
             return self.module.imports[name]
+        if self.module is None:
+            # sidecar context (ghost axioms, contracts of externals): a declared global with that last component
+            cands = [k for k in self.E.sc.globals if k.endswith('.' + name)]
+            if len(cands) == 1:
+                return cands[0]
         return None
 
     def global_value(self, name, st):
-        key = None
-        mod = self.module.name if self.module else None
-        for cand in ((mod + '.' + name) if mod else None, name):
-            if cand and cand in self.E.sc.globals:
-                key = cand
-                break
-        if key is None and self.module and name in self.module.imports:
-            q = self.module.imports[name]
-            if q in self.E.sc.globals:
-                key = q
+        key = self.global_key(name)
         if key is None:
             return None
         gname = 'glob:' + key
@@ -1003,6 +999,10 @@ class FuncVerifier:
             if len(parts) == 1:
                 if parts[0] == '*':
                     out.add('*')
+                    for a in self.E.field_types:
+                        for key, _ in self.field_variants(a):
+                            out.add(key)
+                    continue
                 for key, _ in self.field_variants(parts[0]):
                     out.add(key)
             else:
@@ -1046,6 +1046,19 @@ class FuncVerifier:
         tf = self.typed_fact(val, fty)
         if not z3.is_true(tf) and not self.binders and not spec and not self.bound_env:
             self.add_fact(st, tf)
+        if not spec and not self.binders and not self.bound_env and self.c is not None \
+                and (self.c.opts.get('frame') or self.c.opts.get('heap_closed')):
+            # well-formed heaps: whatever an allocated object refers to is allocated (objects cannot point to the future)
+            from .heap import ALLOC0
+            acur = st.env['__alloc'].term if '__alloc' in st.env else ALLOC0
+            k = fty.strip_opt().kind
+            if k == 'obj':
+                self.add_fact(st, z3.Implies(z3.And(z3.Select(acur, base.term), val != P.none), z3.Select(acur, val)))
+            elif k in ('seq', 'tuple') and fty.strip_opt().args[0].strip_opt().is_obj:
+                i = z3.Int('i!al%d' % next(self.E.counter))
+                self.add_fact(st, z3.Implies(z3.Select(acur, base.term), z3.ForAll(
+                    [i], z3.Implies(z3.And(0 <= i, i < P.slen(val), P.at(val, i) != P.none), z3.Select(acur, P.at(val, i))),
+                    patterns=[P.at(val, i)])))
         if not self.binders and not self.bound_env and fty.kind in ('map', 'seq', 'set', 'tuple', 'opt', 'obj'):
             key = val.get_id()
             if key not in self._deep_done and not self.pattern_unsafe(val):
@@ -1251,7 +1264,11 @@ class FuncVerifier:
                 bt = bt.strip_opt()
             if not bt.is_obj:
                 self.err(target, 'attribute store on %r' % bt)
-            fty = self.field_type(bt.name, target.attr, target)
+            try:
+                fty = self.field_type(bt.name, target.attr, target)
+            except Unsupported:
+                fty, owners = self.subclass_field(bt.name, target.attr, target)
+                self.safety(st, 'attr', self.isinstance_term(base.term, owners), target, False)
             self.heap_write(st, base, target.attr, fty, coerce(sv, fty) if sv.ty != fty else sv, target)
             return
         self.err(target, 'assignment target')
